@@ -64,6 +64,7 @@ struct ArchiveMetadata {
     block_size: u16,
     #[allow(dead_code)] // Kept for future validation features
     sector_size: usize,
+    #[allow(dead_code)] // Kept for future rebuild strategy features
     has_het_bet: bool,
     #[allow(dead_code)] // Kept for future rebuild strategy features
     has_classic_tables: bool,
@@ -172,16 +173,14 @@ pub fn rebuild_archive<P: AsRef<Path>>(
     })
 }
 
-/// Number of files the rebuild enumerates in the source (same listing as extraction uses)
+/// Number of files the rebuild enumerates in the source (same listing as extraction uses:
+/// the listed names first, whatever the table flavour - entries the (listfile) does not name
+/// are not enumerated, so they are neither source files nor skipped files of the summary)
 fn listed_count(archive: &mut Archive, metadata: &ArchiveMetadata) -> usize {
-    let files = if metadata.has_het_bet {
-        archive
-            .list_all_with_hashes()
-            .unwrap_or_else(|_| archive.list().unwrap_or_default())
-    } else {
-        archive
-            .list()
-            .unwrap_or_else(|_| archive.list_all().unwrap_or_default())
+    let _ = metadata;
+    let files = match archive.list() {
+        Ok(files) if !files.is_empty() => files,
+        _ => archive.list_all().unwrap_or_default(),
     };
     files.len()
 }
